@@ -879,6 +879,20 @@ def rule_handler_model(ctx, g: Grammar) -> None:
                        "; ".join(probs.get(hname, [])[:2])[:600], "", A.loc(HELPER, ctx.own(HELPER, "SB21Helper", hname).node))
     ctx.chk.exhaustive_rules.add("C19.handler-model")
     ctx.chk.floor("C19.handler-model", 10)
+    # the length of a programmed blob is the length of the blob ({{ 00 00 00 00 00 00 00 01 }} is 8 bytes), not the magnitude of the number
+    fnp = ctx.own(HELPER, "SB21Helper", "_prog")
+    wrong = []
+    for blob, w1, w2 in (("0000000000000001", 0, swap32(1)), ("0000000100000000", swap32(1), 0), ("00000001", swap32(1), 0)):
+        me = Obj(_cls=helper, zero_filling=Z, search_paths=("sp",))
+        try:
+            out = ordereval.Evaluator({"self": me, fnp.params()[1]: {"values": blob, "address": 0x10, "load_opt": 4}}, ctx.fold_sym(fnp), opaque_return=False, call_value=calls).run(A.body_of(fnp.node))
+        except ordereval.Unsupported as ex:
+            raise AnalysisError(f"C19.blob-length: {fnp.qual} left the fragment: {ex}")
+        if (out.value if out.kind == "return" else out.kind) != prog_cmd(0x10, 4, w1, w2):
+            wrong.append(blob)
+    ctx.chk.decide(not wrong, "C19.blob-length", f"{HELPER}::SB21Helper._prog", "a programmed blob keeps its leading zero bytes",
+                   "the byte count of a programmed blob is taken from the magnitude of its value: leading zero bytes are lost and different 8-byte blobs give the same 4-byte command",
+                   "byte count = length of the blob", A.loc(HELPER, fnp.node))
 
 
 # ------------------------------------------------------------------------------ unsupported
@@ -1200,6 +1214,20 @@ def rule_legacy_mem_names(ctx, g: Grammar) -> None:
         seen.setdefault(label, name)
     ctx.chk.floor("C19.legacy-mem-names", 10)
     ctx.chk.units[MEM] = m.digest
+    # memory id 0 (`internal`) is a valid result of the look-up: its presence is tested with `is (not) None`, never by truth value
+    n_sites = 0
+    for hname, fl in sorted(ctx.cls(HELPER, "SB21Helper").methods.items()):
+        for f in fl:
+            for a in [x for x in A.walk_no_nested(f.node) if isinstance(x, ast.Assign) and isinstance(x.value, ast.Call) and A.call_name(x.value) == "get_legacy_str"
+                      and isinstance(x.targets[0], ast.Name)]:
+                var = a.targets[0].id
+                n_sites += 1
+                truthy = [t for t in ast.walk(f.node) if isinstance(t, (ast.If, ast.IfExp, ast.While)) and
+                          (norm(t.test) == var or norm(t.test) == f"not {var}" or (isinstance(t.test, ast.BoolOp) and any(norm(v) in (var, f"not {var}") for v in t.test.values)))]
+                ctx.chk.decide(not truthy, "C19.legacy-mem-names", f"{f.qual} `{var}`", "the looked-up memory id is tested with `is not None`",
+                               f"`{norm(truthy[0].test)}` treats memory id 0 (the name `internal`) as not found" if truthy else "", f"if {var} is not None", A.loc(HELPER, truthy[0] if truthy else a))
+    if not n_sites:
+        raise AnalysisError("C19.legacy-mem-names: no get_legacy_str look-up found in SB21Helper")
 
 
 def rule_comment_token(ctx) -> None:
